@@ -159,6 +159,7 @@ type VersionsDoc struct {
 	VersionIdMarker     string
 	Entries             []VersionEntry
 	CommonPrefixes      []string
+	EncodingType        string
 }
 
 // ParseVersions decodes a ListBucketVersionsResult keeping element order.
@@ -225,6 +226,8 @@ func ParseVersions(body []byte) (*VersionsDoc, error) {
 				doc.KeyMarker = s
 			case "VersionIdMarker":
 				doc.VersionIdMarker = s
+			case "EncodingType":
+				doc.EncodingType = s
 			}
 		}
 	}
